@@ -101,6 +101,9 @@ def render_plan(p):
     return out + (tarfmt.terminator() if p["term"] else b"")
 
 
+BAD = ("hang", "sanitizer", "signal", "leftover", "invalid-image", "refuse-silent")
+
+
 def run_packer(tools, cmd, out, stdin=None, timeout=10):
     if os.path.exists(out):
         os.unlink(out)
@@ -193,7 +196,7 @@ def run(tier):
             nontrivial.add(json.dumps(p, sort_keys=True))
             if i < 3:
                 ev.sample({"kind": "archive-plan", "plan": p, "model": plans[i]["outcome"], "observed": res}, limit=5)
-            if res in ("hang", "sanitizer", "signal", "leftover", "invalid-image"):
+            if res in BAD:
                 classes = "+".join(sorted(set(c for c in p["recs"] if c != "ok"))) or "valid"
                 key = "tar2sqfs-%s-%s%s" % (res, classes, "" if p["cut"] == "none" else "-cut-" + p["cut"])
                 f = "%s/bad_%d.tar" % (work, i)
@@ -238,7 +241,7 @@ def run(tier):
         for i, (res, err), arch in ex.map(doseq, range(len(seqs))):
             evaluations += 1
             nontrivial.add("ext" + json.dumps(seqs[i]["e1"], sort_keys=True))
-            if res in ("hang", "sanitizer", "signal", "leftover", "invalid-image"):
+            if res in BAD:
                 recs = [x["t"] + ("(path)" if x.get("name") else "") + ("(linkpath)" if x.get("link") else "") for x in seqs[i]["e1"]["exts"]]
                 f = "%s/badx_%d.tar" % (work, i)
                 open(f, "wb").write(arch)
@@ -264,9 +267,127 @@ def run(tier):
         for gi, (res, err) in ex.map(dog, range(len(graphs))):
             evaluations += 1
             nontrivial.add("graph%s" % (graphs[gi],))
-            if res in ("hang", "sanitizer", "signal", "leftover", "invalid-image"):
+            if res in BAD:
                 rep.violation("tar2sqfs-%s-linkgraph" % res, "tar2sqfs on hard-link graph %s (node i -> entry i, 0 = regular file): %s" % (graphs[gi], res),
                               data={"graph": graphs[gi]})
+    # ---- GNU sparse keys inside one PAX record: every sequence of <=4 keys (spec/PaxSparse.tla) ------------------
+    PC = {"MaxKeys": 4, "Emit": False, "MapKeepsLast": False}
+    write_cfg(cfg, spec="Spec", constants=PC, invariants=["NoUseAfterFree", "NoLeak", "ListLive"], deadlock=False)
+    r = run_tlc("PaxSparse", cfg, workers=8, timeout=600, heap="8g")
+    ev.tlc(r, "PaxSparse key sequences <=4")
+    if not r["ok"]:
+        print("MODEL-FAILURE: PaxSparse violates %s" % r["violated"])
+        ev.write()
+        return 2
+    write_cfg(cfg, spec="Spec", constants=dict(PC, MapKeepsLast=True), invariants=["NoUseAfterFree"], deadlock=False)
+    r = run_tlc("PaxSparse", cfg, workers=8, timeout=600, heap="8g")
+    ev.tlc(r, "dev PaxSparse MapKeepsLast")
+    if r["violated"] != "NoUseAfterFree":
+        print("SELF-CHECK-FAILED: MapKeepsLast without counterexample")
+        ev.write()
+        return 2
+    write_cfg(cfg, spec="Spec", constants=dict(PC, Emit=True), invariants=["EmitOK"], deadlock=False)
+    r = run_tlc("PaxSparse", cfg, workers=4, timeout=600, heap="8g")
+    pseqs = bpbind.parse_emitted(r["out"])
+    ev.set("pax_sparse_key_sequences_emitted", len(pseqs))
+    if tier == "quick":
+        short = [x for x in pseqs if len(x["keys"]) <= 3]
+        long_ = [x for x in pseqs if len(x["keys"]) > 3]
+        rng.shuffle(long_)
+        pseqs = short + long_[:400]
+    PK = {"offset": (b"GNU.sparse.offset", b"1024"), "numbytes": (b"GNU.sparse.numbytes", b"100"), "map": (b"GNU.sparse.map", b"0,100,1024,100"),
+          "map_bad": (b"GNU.sparse.map", b"0,100,oops"), "size": (b"GNU.sparse.size", b"4096"), "other": (b"comment", b"x")}
+
+    def dops(i):
+        arch = tarfmt.pax([PK[k] for k in pseqs[i]["keys"]]) + tarfmt.header(b"sp", b"0", size=512) + tarfmt.pad(b"x" * 512) + tarfmt.terminator()
+        out = "%s/ps%d.sqfs" % (work, i)
+        return i, run_packer(tools, [tools + "/tar2sqfs", "-q", "-f", "-c", "gzip", out], out, stdin=arch), arch
+
+    with ThreadPoolExecutor(max_workers=16) as ex:
+        for i, (res, err), arch in ex.map(dops, range(len(pseqs))):
+            evaluations += 1
+            nontrivial.add("paxsparse" + json.dumps(pseqs[i]["keys"]))
+            if res in BAD:
+                f = "%s/badps_%d.tar" % (work, i)
+                open(f, "wb").write(arch)
+                rep.violation("tar2sqfs-%s-paxsparse" % res, "tar2sqfs on a PAX record with the GNU sparse keys %s: %s %s" % (pseqs[i]["keys"], res, err[:150]),
+                              artefact=f, data={"keys": pseqs[i]["keys"]})
+    # ---- xattr map files: every sequence of <=3 line classes (spec/XattrFile.tla) ------------------------------
+    XC = {"MaxLines": 3, "Emit": False, "LinkBeforeValidate": False, "SilentStoreFailure": False}
+    write_cfg(cfg, spec="Spec", constants=XC, invariants=["Robust", "Faithful"], deadlock=False)
+    r = run_tlc("XattrFile", cfg, workers=16, timeout=900, heap="8g")
+    ev.tlc(r, "XattrFile files of <=3 lines")
+    if not r["ok"]:
+        print("MODEL-FAILURE: XattrFile violates %s" % r["violated"])
+        ev.write()
+        return 2
+    for dev in ("LinkBeforeValidate", "SilentStoreFailure"):
+        write_cfg(cfg, spec="Spec", constants=dict(XC, **{dev: True}), invariants=["Robust"], deadlock=False)
+        r = run_tlc("XattrFile", cfg, workers=8, timeout=600, heap="8g")
+        ev.tlc(r, "dev XattrFile " + dev)
+        if r["violated"] != "Robust":
+            print("SELF-CHECK-FAILED: %s without counterexample" % dev)
+            ev.write()
+            return 2
+    write_cfg(cfg, spec="Spec", constants=dict(XC, Emit=True), invariants=["EmitOK"], deadlock=False)
+    r = run_tlc("XattrFile", cfg, workers=4, timeout=900, heap="8g")
+    xfiles = bpbind.parse_emitted(r["out"])
+    ev.set("xattr_files_emitted", len(xfiles))
+    short = [x for x in xfiles if len(x["file"]) <= 2]
+    long_ = [x for x in xfiles if len(x["file"]) > 2]
+    rng.shuffle(long_)
+    xfiles = short + long_[:(700 if tier == "quick" else len(long_))]
+    XL = {"F_f": "# file: f", "F_abs": "# file: /f", "F_nomatch": "# file: zz", "F_dotdot": "# file: ../x", "F_nospace": "# file:",
+          "KV_hex": "user.k%d=0x3132", "KV_hex_odd": "user.k%d=0x123", "KV_hex_bad": "user.k%d=0xzz", "KV_b64": "user.k%d=0sQUJD",
+          "KV_b64_bad": "user.k%d=0sQ!", "KV_text": "user.k%d=plain", "KV_quoted": 'user.k%d="q\\"x\\101"', "KV_empty": "user.k%d=",
+          "KV_nokey": "=v%d", "KV_badprefix": "bogus.k%d=1", "COMMENT": "# just a comment %d", "GARBAGE": "no key value pair %d"}
+    xdrift = 0
+    open("%s/xgood.txt" % work, "w").write("file /f 0644 0 0 %s\n" % (work + "/xsrc.bin"))
+    open(work + "/xsrc.bin", "wb").write(b"data")
+
+    def dox(i):
+        txt = "".join((XL[c] % (n + 1) if "%d" in XL[c] else XL[c]) + "\n" for n, c in enumerate(xfiles[i]["file"]))
+        xf = "%s/xm%d.txt" % (work, i)
+        open(xf, "w").write(txt)
+        out = "%s/xm%d.sqfs" % (work, i)
+        try:
+            p = subprocess.run([tools + "/gensquashfs", "-q", "-f", "-F", work + "/xgood.txt", "-A", xf, out], stdout=subprocess.DEVNULL, stderr=subprocess.PIPE, timeout=10,
+                               env=dict(os.environ, ASAN_OPTIONS="detect_leaks=0"))
+            rc, err = p.returncode, p.stderr.decode(errors="replace")
+        except subprocess.TimeoutExpired:
+            return i, "hang", "", None, txt
+        keys = None
+        if "AddressSanitizer" in err or "runtime error" in err:
+            res = "sanitizer"
+        elif rc < 0 or rc in (134, 139):
+            res = "signal"
+        elif rc == 0:
+            try:
+                t = sqfsimg.load(out).tree(with_content=True)
+                keys = sorted(k.decode() for k in t[b"f"]["xattrs"])
+                res = "image"
+            except Exception as ex:
+                res, err = "invalid-image", str(ex)
+        else:
+            res = "leftover" if os.path.exists(out) else ("refuse" if err.strip() else "refuse-silent")
+        if os.path.exists(out):
+            os.unlink(out)
+        return i, res, err[:200], keys, txt
+
+    with ThreadPoolExecutor(max_workers=16) as ex:
+        for i, res, err, keys, txt in ex.map(dox, range(len(xfiles))):
+            evaluations += 1
+            nontrivial.add("xattrfile" + json.dumps(xfiles[i]["file"]))
+            m = xfiles[i]["outcome"]
+            if res in BAD:
+                rep.violation("gensquashfs-%s-xattrfile-%s" % (res, "+".join(sorted(set(c for c in xfiles[i]["file"] if c.startswith(("F_dotdot", "KV_nokey", "KV_bad", "GARBAGE")))))),
+                              "gensquashfs -A with the xattr file %r: %s %s" % (txt, res, err[:150]), data={"file": xfiles[i]["file"], "text": txt})
+            elif (res == "image") != (m["res"] == "image"):
+                xdrift += 1
+            elif res == "image" and keys != sorted("user.k%d" % n for n in m["keys"]):
+                rep.violation("gensquashfs-xattrfile-keys", "gensquashfs -A with the xattr file %r: file f carries %s, the specification says %s" % (txt, keys, sorted(m["keys"])),
+                              data={"file": xfiles[i]["file"], "text": txt})
+    ev.set("xattr_file_acceptance_differs_from_model(informational)", xdrift)
     # ---- malformed text inputs for gensquashfs ---------------------------------------------------------------
     src = work + "/src.bin"
     open(src, "wb").write(b"data")
@@ -302,7 +423,7 @@ def run(tier):
             evaluations += 3
             nontrivial.add(lines[i])
             for kind, (o, err) in (("packfile", res), ("sortfile", res2), ("xattrfile", res3)):
-                if o in ("hang", "sanitizer", "signal", "leftover", "invalid-image"):
+                if o in BAD:
                     rep.violation("gensquashfs-%s-%s" % (o, kind), "gensquashfs with a malformed %s (%r): %s %s" % (kind, lines[i][:80], o, err[:120]),
                                   data={"line": lines[i], "kind": kind})
     ev.set("evaluations", evaluations)
